@@ -58,7 +58,7 @@ theorem matchSchc_miss (rules : List Rule) (s : ABuf) (hne : rules ≠ []) (h : 
 theorem first_spec (rules : List Rule) (p : Packet) (d : Dir) (h : ∀ r ∈ rules, RuleTypeOK r) :
     managerCompressPacket rules p d .first =
       match rules.find? (Spec.applicable { p with dir := d }) with
-      | some r => compress { p with dir := d } r
+      | some r => compressD { p with dir := d } r (some d)
       | none => .error .ruleDescriptorMatchError := by
   unfold managerCompressPacket
   simp only [matchFirst_spec rules _ h, bind, Except.bind]
@@ -68,9 +68,9 @@ theorem first_spec (rules : List Rule) (p : Packet) (d : Dir) (h : ∀ r ∈ rul
     than `best` and than any applicable rule's output seen so far -/
 theorem bestLoop_spec (p : Packet) (rules : List Rule) (best : Option ABuf) (h : ∀ r ∈ rules, RuleTypeOK r)
     (res : Option ABuf) (hres : bestLoop p rules best = .ok res) :
-    (∀ c, res = some c → best = some c ∨ ∃ r ∈ rules, Spec.applicable p r = true ∧ compress p r = .ok c) ∧
+    (∀ c, res = some c → best = some c ∨ ∃ r ∈ rules, Spec.applicable p r = true ∧ compressD p r (some p.dir) = .ok c) ∧
     (∀ b, best = some b → ∃ c, res = some c ∧ c.length ≤ b.length) ∧
-    (∀ r ∈ rules, Spec.applicable p r = true → ∃ c o, res = some c ∧ compress p r = .ok o ∧ c.length ≤ o.length) := by
+    (∀ r ∈ rules, Spec.applicable p r = true → ∃ c o, res = some c ∧ compressD p r (some p.dir) = .ok o ∧ c.length ≤ o.length) := by
   induction rules generalizing best with
   | nil =>
     simp only [bestLoop, pure, Except.pure, Except.ok.injEq] at hres
@@ -93,7 +93,7 @@ theorem bestLoop_spec (p : Packet) (rules : List Rule) (best : Option ABuf) (h :
         · subst e; rw [ha] at hxa; cases hxa
         · exact i3 x e hxa
     · simp only [ha, if_true] at hres
-      cases hc : compress p r with
+      cases hc : compressD p r (some p.dir) with
       | error e => simp [hc] at hres
       | ok c =>
         simp only [hc] at hres
@@ -132,12 +132,12 @@ end Schc
 namespace Schc
 
 theorem bestLoop_total (p : Packet) (rules : List Rule) (best : Option ABuf) (h : ∀ r ∈ rules, RuleTypeOK r)
-    (hc : ∀ r ∈ rules, Spec.applicable p r = true → ∃ o, compress p r = .ok o) : ∃ res, bestLoop p rules best = .ok res := by
+    (hc : ∀ r ∈ rules, Spec.applicable p r = true → ∃ o, compressD p r (some p.dir) = .ok o) : ∃ res, bestLoop p rules best = .ok res := by
   induction rules generalizing best with
   | nil => exact ⟨best, rfl⟩
   | cons r rs ih =>
     have hrs : ∀ x ∈ rs, RuleTypeOK x := fun x hx => h x (List.mem_cons_of_mem _ hx)
-    have hcs : ∀ x ∈ rs, Spec.applicable p x = true → ∃ o, compress p x = .ok o := fun x hx => hc x (List.mem_cons_of_mem _ hx)
+    have hcs : ∀ x ∈ rs, Spec.applicable p x = true → ∃ o, compressD p x (some p.dir) = .ok o := fun x hx => hc x (List.mem_cons_of_mem _ hx)
     simp only [bestLoop, ruleMatches_spec p r (h r (by simp)), bind, Except.bind]
     cases ha : Spec.applicable p r
     · simp only [Bool.false_eq_true, if_false]; exact ih best hrs hcs
@@ -174,7 +174,7 @@ namespace Schc
 
 theorem best_member (rules : List Rule) (p : Packet) (d : Dir) (h : ∀ r ∈ rules, RuleTypeOK r) (c : ABuf)
     (hc : managerCompressPacket rules p d .best = .ok c) :
-    ∃ r ∈ rules, Spec.applicable { p with dir := d } r = true ∧ compress { p with dir := d } r = .ok c := by
+    ∃ r ∈ rules, Spec.applicable { p with dir := d } r = true ∧ compressD { p with dir := d } r (some d) = .ok c := by
   rw [best_spec] at hc
   cases hb : bestLoop { p with dir := d } rules none with
   | error e => simp [hb] at hc
@@ -190,7 +190,7 @@ theorem best_member (rules : List Rule) (p : Packet) (d : Dir) (h : ∀ r ∈ ru
 /-- whichever strategy: a successful manager compress is the output of an applicable rule of the set -/
 theorem selected_rule (rules : List Rule) (p : Packet) (d : Dir) (st : Strategy) (h : ∀ r ∈ rules, RuleTypeOK r) (c : ABuf)
     (hc : managerCompressPacket rules p d st = .ok c) :
-    ∃ r ∈ rules, Spec.applicable { p with dir := d } r = true ∧ compress { p with dir := d } r = .ok c := by
+    ∃ r ∈ rules, Spec.applicable { p with dir := d } r = true ∧ compressD { p with dir := d } r (some d) = .ok c := by
   cases st
   · rw [first_spec rules p d h] at hc
     cases hfind : rules.find? (Spec.applicable { p with dir := d }) with
